@@ -115,6 +115,8 @@ Record pattrs := mkPattrs { a_xshape : list nat; a_yshape : list nat; a_fit : pl
 (* if T.ndim(Y) == 1: Y = T.reshape(Y, (-1, 1)) *)
 Definition as_matrix (Y : tensor F) : tensor F :=
   match shape Y with [n] => mk [n; 1] (data Y) | _ => Y end.
+(* the constant added to the targets, as the row the matrix form of Y is shifted by (vector Y: d is a scalar) *)
+Definition y_offset (Y d : tensor F) : tensor F := match shape Y with [_] => mk [1] (data d) | _ => d end.
 Definition zeros (s : list nat) : tensor F := tabulate s (fun _ => f0 Op).
 (* the attributes as fit initialises them before the component loop: T.zeros columns *)
 Definition zero_comp (X Y : tensor F) : comp (F:=F) :=
